@@ -2,7 +2,6 @@ package c15
 
 import (
 	"fmt"
-	"os"
 	"sort"
 	"strings"
 
@@ -16,6 +15,7 @@ type famInfo struct {
 	cmp  [][]int        // Compare(a,b) in {-1,0,1}; 2 = error / panic
 	eq   [][]bool
 	hash []bool
+	ptr  map[object.Object]int
 	sortOnly bool // long lists: only the sorting pieces are generated
 }
 
@@ -43,7 +43,7 @@ func cmp3(a, b object.Object) (r int) {
 }
 
 func newFamInfo(f family) (*famInfo, string) {
-	fi := &famInfo{family: f, idx: map[string]int{}}
+	fi := &famInfo{family: f, idx: map[string]int{}, ptr: map[object.Object]int{}}
 	n := len(f.Vals)
 	for i, v := range f.Vals {
 		id := ident(v.Obj)
@@ -51,6 +51,7 @@ func newFamInfo(f family) (*famInfo, string) {
 			return nil, "family " + f.Name + " has two indistinguishable values: " + id
 		}
 		fi.idx[id] = i
+		fi.ptr[v.Obj] = i
 		_, h := v.Obj.(object.Hashable)
 		fi.hash = append(fi.hash, h)
 	}
@@ -208,9 +209,6 @@ func (fi *famInfo) runBatch(lists [][]int) (out []listResult, evals int, engineE
 		for k, ro := range rows.Value() {
 			row, ok := ro.(*object.List)
 			if !ok || len(row.Value()) != nPieces+1 || ident(row.Value()[0]) != fmt.Sprintf("int:%d", 1000+k) {
-				if f := os.Getenv("C15_DUMP_BAD"); f != "" {
-					os.WriteFile(f, []byte(fi.batchScript(lists)), 0o644)
-				}
 				return out, evals, "list batch returned a malformed row for " + fi.names(lists[k]) + ": " + ident(ro)
 			}
 			copy(out[k].piece[:], row.Value()[1:])
@@ -305,7 +303,9 @@ func isPerm(a, b []int) bool {
 func (fi *famInfo) judgeList(items []int, maxLen int, res listResult) (out []finding, outcome string, note []string, engineErr string) {
 	rc := replayCase{Part: "list", Family: fi.Name, Items: append([]int{}, items...), MaxLen: maxLen}
 	add := func(sig, what, observed, expected string) {
-		out = append(out, finding{Sig: sig, What: fmt.Sprintf("family %s, input %s: %s", fi.Name, fi.names(items), what), Observed: observed, Expected: expected, Case: rc})
+		c := rc
+		c.Law = sig
+		out = append(out, finding{Sig: sig, What: fmt.Sprintf("family %s, input %s: %s", fi.Name, fi.names(items), what), Observed: observed, Expected: expected, Case: c})
 	}
 	var oc []string
 	comparable := fi.mutuallyComparable(items)
